@@ -116,10 +116,10 @@ mutual
         match chk, toInlines n cs with
         | some chk, some cs => some (.para cs chk)
         | _, _ => none
-      | "heading", .atom l :: cs =>
-        match decNat l, toInlines n cs with
-        | some l, some cs => some (.heading l cs)
-        | _, _ => none
+      | "heading", .atom l :: .atom sx :: cs =>
+        match decNat l, decBool sx, toInlines n cs with
+        | some l, some sx, some cs => some (.heading l cs sx)
+        | _, _, _ => none
       | "list", .atom o :: .atom st :: .atom b :: .atom t :: items =>
         match decBool o, decNat st, decS b, decBool t, toBlocks n items with
         | some o, some st, some b, some t, some items => some (.list o st b t items)
